@@ -142,10 +142,32 @@ def scale(job, kind, mode, tier, Ns=None):
                                        replay={"fn": "vf.props.C11:concrete_step0", "inputs": dict(fb[0], kind=kind, mode=mode, program=program, N=1)})
                     if not got:
                         job.unreached(tag)
+    if tuple(Ns) == (1,):
+        job.refute_concretely("C11/%s/%s/integer_step_length" % (proc.SHORT[kind], mode), "vf.props.C11:concrete_integer_step", {"kind": kind, "mode": mode})
     for f_ in realrun.proc_fallback(mode)[:1]:
         if ideal:
             r = concrete(dict(f_, kind=kind, mode=mode, N=3, k=2.5))
             job.validated("C11 %s %s" % (kind, mode), r["ok"], r["detail"])
+
+
+def concrete_integer_step(inp):
+    """a whole-number step length given as an int and as a float is the same step length (labelled concrete point: the dtype of a number
+    has no counterpart in real arithmetic), and the size scaling holds for it"""
+    import warnings
+    mode = inp.get("mode")
+    f = dict(realrun.proc_fallback(mode, None)[0], kind=inp["kind"], mode=mode, N=3, A=0.004, m0=12.0)
+    bad = []
+    with warnings.catch_warnings():
+        warnings.simplefilter("ignore")
+        try:
+            a, _, _ = realrun.process(dict(f, dt=1))
+            b, _, _ = realrun.process(dict(f, dt=1.0))
+            c, _, _ = realrun.process(dict(f, dt=1, A=f["A"] * 1e-3, m0=f["m0"] * 1e-3))
+        except ValueError as e:
+            return {"ok": True, "detail": "run rejected: %s" % e, "inputs": inp}
+    bad += _cmp_models(b, a, 1.0, "delta_hours=1 (int) against delta_hours=1.0")
+    bad += _cmp_models(a, c, 1e-3, "(kA, k m0), k=1e-3, integer step length")
+    return {"ok": not bad, "detail": "%s: %s" % (inp["kind"], "; ".join(bad[:3])), "inputs": inp}
 
 
 def concrete_step0(inp):
